@@ -99,6 +99,9 @@ pub fn skipped() -> FieldObs {
     }
 }
 
+/// One bit per field of a variant (up to 128 fields).
+pub type Mask = u128;
+
 pub const NSLOTS: usize = 11;
 /// Placement of each slot.
 pub const SLOT_KIND: [&str; NSLOTS] = [
@@ -162,15 +165,15 @@ pub enum Op {
     /// `CappedRecordN::from(UnpackedUninitRecordN { .. })`
     FromUnpackedUninit { slot: usize, variant: usize, ids: Vec<u64> },
     /// reads the fields in `mask` through the shared accessors
-    ReadAll { slot: usize, mask: u64 },
+    ReadAll { slot: usize, mask: Mask },
     /// `*record.field_mut() = make(id)`
     Write { slot: usize, field: usize, id: u64 },
     /// converts the record in `slot` to the next variant. forms: 0 = full additions, 1 = only
     /// mandatory additions, 2 / 3 = the same, returning the removed data. `ids` are indexed by
     /// position in the target variant's `plus` list. `mask` selects which returned removed
     /// fields are observed (by position in `minus`).
-    Convert { slot: usize, form: u8, ids: Vec<u64>, mask: u64 },
-    Unpack { slot: usize, mask: u64 },
+    Convert { slot: usize, form: u8, ids: Vec<u64>, mask: Mask },
+    Unpack { slot: usize, mask: Mask },
     Drop { slot: usize },
     Move { from: usize, to: usize },
     Clone { from: usize, to: usize },
@@ -184,9 +187,9 @@ pub enum Op {
     DeJson { slot: usize, variant: usize, text: String, via_value: bool },
     DeBin { slot: usize, variant: usize, bytes: Vec<u8> },
     /// three threads read the fields in `mask` through a shared reference at the same time
-    ThreadShare { slot: usize, mask: u64 },
+    ThreadShare { slot: usize, mask: Mask },
     /// the record is moved to another thread, read there, and moved back
-    ThreadSend { slot: usize, mask: u64 },
+    ThreadSend { slot: usize, mask: Mask },
     /// builds a `Vec<CappedRecordN>` from `ids` (one row per element), converts it in place to
     /// the next variant (form 0), abandoning the elements whose bit is clear in `keep`
     VecConvert { variant: usize, rows: Vec<Vec<u64>>, plus_rows: Vec<Vec<u64>>, keep: u64, spare: usize },
